@@ -42,6 +42,9 @@ pub enum Call {
     IncB,
     /// reset() of a (possibly finished) bar
     Reset,
+    /// set_draw_target(terminal) on bar a / MultiProgress::add(bar a)
+    SetTarget,
+    MpAddSelf,
     /// a wrapped iterator over two items, driven to exhaustion
     Iter2,
     /// a wrapped reader: one read of three bytes
@@ -60,6 +63,9 @@ pub enum Share {
 
 #[derive(Clone, Debug)]
 pub struct Program {
+    /// bar a is created with a hidden target and gets its terminal (or its MultiProgress) later,
+    /// through `Call::SetTarget` / `Call::MpAddSelf`
+    pub start_hidden: bool,
     /// bar a has no length (finish leaves the position where it is)
     pub no_len: bool,
     pub family: &'static str,
@@ -71,10 +77,10 @@ pub struct Program {
 
 impl Program {
     pub fn describe(&self) -> String {
-        format!("{}{}{}{} {:?}", if self.no_len { "no-length " } else { "" }, if self.multi { "multi " } else { "single " }, if self.ticker { "ticker-on " } else { "" }, if self.share == Share::ArcRef { "shared-by-reference" } else { "clones" }, self.threads)
+        format!("{}{}{}{}{} {:?}", if self.start_hidden { "hidden-at-first " } else { "" }, if self.no_len { "no-length " } else { "" }, if self.multi { "multi " } else { "single " }, if self.ticker { "ticker-on " } else { "" }, if self.share == Share::ArcRef { "shared-by-reference" } else { "clones" }, self.threads)
     }
     pub fn history(&self) -> Vec<String> {
-        let mut v = vec![format!("{}{} bar, steady ticker {}, handles shared as {:?}", if self.no_len { "length-less " } else { "" }, if self.multi { "member of a 2-bar MultiProgress" } else { "standalone" }, if self.ticker { "enabled before the threads start" } else { "off" }, self.share)];
+        let mut v = vec![format!("{}{}{} bar, steady ticker {}, handles shared as {:?}", if self.start_hidden { "created hidden, " } else { "" }, if self.no_len { "length-less " } else { "" }, if self.multi { "member of a 2-bar MultiProgress" } else { "standalone" }, if self.ticker { "enabled before the threads start" } else { "off" }, self.share)];
         for (i, t) in self.threads.iter().enumerate() {
             v.push(format!("T{}: {:?}", i + 1, t));
         }
@@ -118,7 +124,7 @@ pub fn programs_for(family: &str, tier: &str) -> Vec<Program> {
                     // all unordered pairs of single calls
                     for i in 0..alpha.len() {
                         for j in i..alpha.len() {
-                            v.push(Program { no_len: false, family: "C08", multi, ticker, share: Share::Clone, threads: vec![vec![alpha[i]], vec![alpha[j]]] });
+                            v.push(Program { start_hidden: false, no_len: false, family: "C08", multi, ticker, share: Share::Clone, threads: vec![vec![alpha[i]], vec![alpha[j]]] });
                         }
                     }
                     if thorough {
@@ -127,7 +133,7 @@ pub fn programs_for(family: &str, tier: &str) -> Vec<Program> {
                         for &a in &two {
                             for &b in &two {
                                 for &c in &alpha {
-                                    v.push(Program { no_len: false, family: "C08", multi, ticker, share: Share::Clone, threads: vec![vec![a, b], vec![c]] });
+                                    v.push(Program { start_hidden: false, no_len: false, family: "C08", multi, ticker, share: Share::Clone, threads: vec![vec![a, b], vec![c]] });
                                 }
                             }
                         }
@@ -136,8 +142,8 @@ pub fn programs_for(family: &str, tier: &str) -> Vec<Program> {
             }
             // a tick that takes longer than the tick interval (clock advances on every reading)
             for &c in &[Call::Disable, Call::Enable, Call::Finish, Call::DropOwn, Call::Tick, Call::Update] {
-                v.push(Program { no_len: false, family: "C08", multi: false, ticker: false, share: Share::Clone, threads: vec![vec![Call::EnableShort], vec![c]] });
-                v.push(Program { no_len: false, family: "C08", multi: false, ticker: false, share: Share::Clone, threads: vec![vec![Call::EnableShort, c]] });
+                v.push(Program { start_hidden: false, no_len: false, family: "C08", multi: false, ticker: false, share: Share::Clone, threads: vec![vec![Call::EnableShort], vec![c]] });
+                v.push(Program { start_hidden: false, no_len: false, family: "C08", multi: false, ticker: false, share: Share::Clone, threads: vec![vec![Call::EnableShort, c]] });
             }
             // three threads, calls that touch the ticker slot or join
             let slot: Vec<Call> = vec![Call::Update, Call::Tick, Call::Enable, Call::Disable, Call::Finish, Call::DropOwn];
@@ -146,29 +152,33 @@ pub fn programs_for(family: &str, tier: &str) -> Vec<Program> {
                     for i in 0..slot.len() {
                         for j in i..slot.len() {
                             for k in j..slot.len() {
-                                v.push(Program { no_len: false, family: "C08", multi: false, ticker, share: Share::Clone, threads: vec![vec![slot[i]], vec![slot[j]], vec![slot[k]]] });
+                                v.push(Program { start_hidden: false, no_len: false, family: "C08", multi: false, ticker, share: Share::Clone, threads: vec![vec![slot[i]], vec![slot[j]], vec![slot[k]]] });
                             }
                         }
                     }
                 }
             } else {
                 for &(a, b, c) in &[(Call::Update, Call::Disable, Call::Tick), (Call::Enable, Call::Disable, Call::Finish), (Call::Enable, Call::Enable, Call::DropOwn), (Call::Update, Call::Enable, Call::Finish)] {
-                    v.push(Program { no_len: false, family: "C08", multi: false, ticker: true, share: Share::Clone, threads: vec![vec![a], vec![b], vec![c]] });
+                    v.push(Program { start_hidden: false, no_len: false, family: "C08", multi: false, ticker: true, share: Share::Clone, threads: vec![vec![a], vec![b], vec![c]] });
                 }
             }
             // liveness of a (re-)enabled ticker after histories that let an earlier ticker thread exit on
             // its own: the bar must be redrawn without manual ticks after the last enable call
             for en in [Call::Enable, Call::EnableShort] {
                 for hist in [vec![en, Call::AwaitTick], vec![en, Call::Finish, Call::Reset, en, Call::AwaitTick], vec![en, Call::Disable, en, Call::AwaitTick], vec![en, Call::Abandon, Call::Reset, en, Call::AwaitTick], vec![en, en, Call::AwaitTick], vec![en, Call::Reset, en, Call::AwaitTick]] {
-                    v.push(Program { no_len: false, family: "C08", multi: false, ticker: false, share: Share::Clone, threads: vec![hist.clone()] });
+                    v.push(Program { start_hidden: false, no_len: false, family: "C08", multi: false, ticker: false, share: Share::Clone, threads: vec![hist.clone()] });
                     if en == Call::Enable {
-                        v.push(Program { no_len: false, family: "C08", multi: true, ticker: false, share: Share::Clone, threads: vec![hist] });
+                        v.push(Program { start_hidden: false, no_len: false, family: "C08", multi: true, ticker: false, share: Share::Clone, threads: vec![hist] });
                     }
                 }
-                v.push(Program { no_len: false, family: "C08", multi: false, ticker: true, share: Share::Clone, threads: vec![vec![Call::Finish, Call::Reset, en, Call::AwaitTick]] });
+                v.push(Program { start_hidden: false, no_len: false, family: "C08", multi: false, ticker: true, share: Share::Clone, threads: vec![vec![Call::Finish, Call::Reset, en, Call::AwaitTick]] });
+                // steady tick enabled while the bar is still hidden; it gets its terminal / its MultiProgress afterwards
+                v.push(Program { start_hidden: true, no_len: false, family: "C08", multi: false, ticker: false, share: Share::Clone, threads: vec![vec![en, Call::SetTarget, Call::AwaitTick]] });
+                v.push(Program { start_hidden: true, no_len: false, family: "C08", multi: false, ticker: false, share: Share::Clone, threads: vec![vec![en], vec![Call::SetTarget, Call::AwaitTick]] });
+                v.push(Program { start_hidden: true, no_len: false, family: "C08", multi: true, ticker: false, share: Share::Clone, threads: vec![vec![en, Call::MpAddSelf, Call::AwaitTick]] });
                 // (finish and reset stay in one thread: the harness' finish_returned flag is only
                 // meaningful when reset() is ordered after finish() by the program itself)
-                v.push(Program { no_len: false, family: "C08", multi: false, ticker: true, share: Share::Clone, threads: vec![vec![Call::Tick], vec![Call::Finish, Call::Reset, en, Call::AwaitTick]] });
+                v.push(Program { start_hidden: false, no_len: false, family: "C08", multi: false, ticker: true, share: Share::Clone, threads: vec![vec![Call::Tick], vec![Call::Finish, Call::Reset, en, Call::AwaitTick]] });
             }
         }
         "L07" => {
@@ -176,9 +186,9 @@ pub fn programs_for(family: &str, tier: &str) -> Vec<Program> {
             for share in [Share::Clone, Share::ArcRef] {
                 for i in 0..calls.len() {
                     for j in i..calls.len() {
-                        v.push(Program { no_len: false, family: "L07", multi: false, ticker: false, share, threads: vec![vec![calls[i]], vec![calls[j]]] });
+                        v.push(Program { start_hidden: false, no_len: false, family: "L07", multi: false, ticker: false, share, threads: vec![vec![calls[i]], vec![calls[j]]] });
                         if thorough || (i == 0 && j == 2) || (i == 1 && j == 3) {
-                            v.push(Program { no_len: false, family: "L07", multi: false, ticker: false, share, threads: vec![vec![calls[i], calls[j]], vec![calls[j], calls[i]]] });
+                            v.push(Program { start_hidden: false, no_len: false, family: "L07", multi: false, ticker: false, share, threads: vec![vec![calls[i], calls[j]], vec![calls[j], calls[i]]] });
                         }
                     }
                 }
@@ -187,9 +197,9 @@ pub fn programs_for(family: &str, tier: &str) -> Vec<Program> {
                     if !thorough && n3 > 0 {
                         continue;
                     }
-                    v.push(Program { no_len: false, family: "L07", multi: false, ticker: false, share, threads: vec![vec![a], vec![b], vec![c]] });
+                    v.push(Program { start_hidden: false, no_len: false, family: "L07", multi: false, ticker: false, share, threads: vec![vec![a], vec![b], vec![c]] });
                     if thorough {
-                        v.push(Program { no_len: false, family: "L07", multi: false, ticker: false, share, threads: vec![vec![a, b], vec![b, c], vec![c, a]] });
+                        v.push(Program { start_hidden: false, no_len: false, family: "L07", multi: false, ticker: false, share, threads: vec![vec![a, b], vec![b, c], vec![c, a]] });
                     }
                 }
             }
@@ -197,17 +207,17 @@ pub fn programs_for(family: &str, tier: &str) -> Vec<Program> {
             // them must survive exactly like increments racing with each other
             for share in [Share::Clone, Share::ArcRef] {
                 for fin in [Call::Finish, Call::Abandon] {
-                    v.push(Program { no_len: true, family: "L07", multi: false, ticker: false, share, threads: vec![vec![fin], vec![Call::Inc(1)]] });
-                    v.push(Program { no_len: true, family: "L07", multi: false, ticker: false, share, threads: vec![vec![fin], vec![Call::Inc(1), Call::Dec(3)]] });
+                    v.push(Program { start_hidden: false, no_len: true, family: "L07", multi: false, ticker: false, share, threads: vec![vec![fin], vec![Call::Inc(1)]] });
+                    v.push(Program { start_hidden: false, no_len: true, family: "L07", multi: false, ticker: false, share, threads: vec![vec![fin], vec![Call::Inc(1), Call::Dec(3)]] });
                     if thorough {
-                        v.push(Program { no_len: true, family: "L07", multi: false, ticker: false, share, threads: vec![vec![fin], vec![Call::Inc(1)], vec![Call::Inc(4)]] });
-                        v.push(Program { no_len: true, family: "L07", multi: true, ticker: false, share, threads: vec![vec![fin], vec![Call::Inc(1)]] });
+                        v.push(Program { start_hidden: false, no_len: true, family: "L07", multi: false, ticker: false, share, threads: vec![vec![fin], vec![Call::Inc(1)], vec![Call::Inc(4)]] });
+                        v.push(Program { start_hidden: false, no_len: true, family: "L07", multi: true, ticker: false, share, threads: vec![vec![fin], vec![Call::Inc(1)]] });
                     }
                 }
             }
             // increments while a ticker is installed and while the bar sits in a MultiProgress
-            v.push(Program { no_len: false, family: "L07", multi: true, ticker: false, share: Share::Clone, threads: vec![vec![Call::Inc(1), Call::Inc(2)], vec![Call::Inc(4)]] });
-            v.push(Program { no_len: false, family: "L07", multi: false, ticker: true, share: Share::Clone, threads: vec![vec![Call::Inc(1)], vec![Call::Inc(4), Call::Dec(2)]] });
+            v.push(Program { start_hidden: false, no_len: false, family: "L07", multi: true, ticker: false, share: Share::Clone, threads: vec![vec![Call::Inc(1), Call::Inc(2)], vec![Call::Inc(4)]] });
+            v.push(Program { start_hidden: false, no_len: false, family: "L07", multi: false, ticker: true, share: Share::Clone, threads: vec![vec![Call::Inc(1)], vec![Call::Inc(4), Call::Dec(2)]] });
         }
         "L17" => {
             // adaptors on clones of one length-less bar (exhausting an iterator finishes the bar, which
@@ -219,36 +229,36 @@ pub fn programs_for(family: &str, tier: &str) -> Vec<Program> {
                         if calls[i] == Call::Inc(1) && calls[j] == Call::Inc(1) {
                             continue;
                         }
-                        v.push(Program { no_len: true, family: "L07", multi: false, ticker: false, share, threads: vec![vec![calls[i]], vec![calls[j]]] });
+                        v.push(Program { start_hidden: false, no_len: true, family: "L07", multi: false, ticker: false, share, threads: vec![vec![calls[i]], vec![calls[j]]] });
                         if thorough {
-                            v.push(Program { no_len: true, family: "L07", multi: false, ticker: false, share, threads: vec![vec![calls[i], calls[j]], vec![calls[j]]] });
+                            v.push(Program { start_hidden: false, no_len: true, family: "L07", multi: false, ticker: false, share, threads: vec![vec![calls[i], calls[j]], vec![calls[j]]] });
                         }
                     }
                 }
                 if thorough {
-                    v.push(Program { no_len: true, family: "L07", multi: false, ticker: false, share, threads: vec![vec![Call::Iter2], vec![Call::Read3], vec![Call::Iter2]] });
+                    v.push(Program { start_hidden: false, no_len: true, family: "L07", multi: false, ticker: false, share, threads: vec![vec![Call::Iter2], vec![Call::Read3], vec![Call::Iter2]] });
                 }
             }
-            v.push(Program { no_len: true, family: "L07", multi: true, ticker: false, share: Share::Clone, threads: vec![vec![Call::Iter2], vec![Call::Read3]] });
+            v.push(Program { start_hidden: false, no_len: true, family: "L07", multi: true, ticker: false, share: Share::Clone, threads: vec![vec![Call::Iter2], vec![Call::Read3]] });
         }
         "L02" => {
             let calls: Vec<Call> = vec![Call::Inc(1), Call::Tick, Call::Msg, Call::Finish, Call::DropOwn, Call::MpPrintln, Call::MpRemove, Call::MpAdd, Call::MpClear, Call::IncB, Call::TickB];
             for i in 0..calls.len() {
                 for j in i..calls.len() {
-                    v.push(Program { no_len: false, family: "L02", multi: true, ticker: false, share: Share::Clone, threads: vec![vec![calls[i]], vec![calls[j]]] });
+                    v.push(Program { start_hidden: false, no_len: false, family: "L02", multi: true, ticker: false, share: Share::Clone, threads: vec![vec![calls[i]], vec![calls[j]]] });
                 }
             }
             // suspending the whole MultiProgress while another thread updates a member
             for &o in &[Call::Tick, Call::Inc(1), Call::IncB, Call::Finish, Call::MpPrintln] {
-                v.push(Program { no_len: false, family: "L02", multi: true, ticker: false, share: Share::Clone, threads: vec![vec![Call::MpSuspendWrite], vec![o]] });
-                v.push(Program { no_len: false, family: "L02", multi: true, ticker: false, share: Share::Clone, threads: vec![vec![Call::SuspendWrite], vec![o]] });
+                v.push(Program { start_hidden: false, no_len: false, family: "L02", multi: true, ticker: false, share: Share::Clone, threads: vec![vec![Call::MpSuspendWrite], vec![o]] });
+                v.push(Program { start_hidden: false, no_len: false, family: "L02", multi: true, ticker: false, share: Share::Clone, threads: vec![vec![Call::SuspendWrite], vec![o]] });
             }
             let two: Vec<Call> = vec![Call::Inc(1), Call::IncB, Call::Finish, Call::MpPrintln, Call::DropOwn];
             for &a in &two {
                 for &b in &two {
                     for &c in &two {
                         if thorough || (a != b) {
-                            v.push(Program { no_len: false, family: "L02", multi: true, ticker: false, share: Share::Clone, threads: vec![vec![a, b], vec![c]] });
+                            v.push(Program { start_hidden: false, no_len: false, family: "L02", multi: true, ticker: false, share: Share::Clone, threads: vec![vec![a, b], vec![c]] });
                         }
                     }
                 }
@@ -262,7 +272,7 @@ pub fn programs_for(family: &str, tier: &str) -> Vec<Program> {
                         let (a, b, c) = (three[i], three[j], three[k]);
                         let quick_pick = i == 0 && j == 1 && k >= 2;
                         if thorough || quick_pick {
-                            v.push(Program { no_len: false, family: "L02", multi: true, ticker: false, share: Share::Clone, threads: vec![vec![a], vec![b], vec![c]] });
+                            v.push(Program { start_hidden: false, no_len: false, family: "L02", multi: true, ticker: false, share: Share::Clone, threads: vec![vec![a], vec![b], vec![c]] });
                         }
                     }
                 }
@@ -284,9 +294,9 @@ pub fn programs_for(family: &str, tier: &str) -> Vec<Program> {
                             if o == Call::TickB && !multi {
                                 continue;
                             }
-                            v.push(Program { no_len: false, family: "L03", multi, ticker, share: Share::Clone, threads: vec![vec![sus], vec![o]] });
+                            v.push(Program { start_hidden: false, no_len: false, family: "L03", multi, ticker, share: Share::Clone, threads: vec![vec![sus], vec![o]] });
                             if thorough {
-                                v.push(Program { no_len: false, family: "L03", multi, ticker, share: Share::Clone, threads: vec![vec![sus, Call::Tick], vec![o, o]] });
+                                v.push(Program { start_hidden: false, no_len: false, family: "L03", multi, ticker, share: Share::Clone, threads: vec![vec![sus, Call::Tick], vec![o, o]] });
                             }
                         }
                     }
@@ -389,6 +399,10 @@ fn do_call(c: Call, pb: &ProgressBar, w: &World, sh: &Shared) {
             clock::set_step_ns(5_000_000);
             sh.enable_mark.store(sh.ticker_ticks.load(Ordering::SeqCst), Ordering::SeqCst);
             pb.enable_steady_tick(Duration::from_millis(1))
+        }
+        Call::SetTarget => pb.set_draw_target(ProgressDrawTarget::term_like(w.spy.boxed())),
+        Call::MpAddSelf => {
+            let _ = w.mp.as_ref().unwrap().add(pb.clone());
         }
         Call::Iter2 => {
             for _ in pb.wrap_iter(0..2) {}
@@ -504,13 +518,13 @@ pub fn execute(p: &Program, timeouts: usize, obs: &Obs) {
     let mk = |name: &str, sh: &Arc<Shared>| ProgressBar::with_draw_target(len_a, ProgressDrawTarget::hidden()).with_style(style(sh, !has_enable_call)).with_prefix(name.to_string()).with_finish(ProgressFinish::AndLeave);
     let world = if p.multi {
         let mp = MultiProgress::with_draw_target(ProgressDrawTarget::term_like(spy.boxed()));
-        let a = mp.add(mk("a", &sh));
+        let a = if p.start_hidden { mk("a", &sh) } else { mp.add(mk("a", &sh)) };
         let b = mp.add(ProgressBar::with_draw_target(Some(9), ProgressDrawTarget::hidden()).with_style(ProgressStyle::with_template("{prefix}:{pos}").unwrap()).with_prefix("b").with_finish(ProgressFinish::AndLeave));
         a.tick();
         b.tick();
         World { spy: spy.clone(), mp: Some(mp), a: Arc::new(a), b: Some(b) }
     } else {
-        let a = ProgressBar::with_draw_target(len_a, ProgressDrawTarget::term_like(spy.boxed())).with_style(style(&sh, !has_enable_call)).with_prefix("a").with_finish(ProgressFinish::AndLeave);
+        let a = ProgressBar::with_draw_target(len_a, if p.start_hidden { ProgressDrawTarget::hidden() } else { ProgressDrawTarget::term_like(spy.boxed()) }).with_style(style(&sh, !has_enable_call)).with_prefix("a").with_finish(ProgressFinish::AndLeave);
         a.tick();
         World { spy: spy.clone(), mp: None, a: Arc::new(a), b: None }
     };
